@@ -270,6 +270,19 @@ class VScriptedHFT(_Scripted, HighFrequencyAgent):
     pass
 
 
+class _ScriptedBase(_Scripted, Agent):
+    """an intermediate user base class that supplies behaviour and callbacks"""
+
+
+class VScriptedHFTLate(HighFrequencyAgent, _ScriptedBase):
+    """the same agent, declared the other way round: HighFrequencyAgent first, the class that supplies the callbacks after it
+    (and a plain subclass below it, so that nothing is defined in the agent's own class body)"""
+
+
+class VScriptedAgentSub(VScriptedAgent):
+    """callbacks and behaviour inherited through an intermediate class"""
+
+
 def _traced(base, name):
     def submit_orders(self, markets):
         out = base.submit_orders(self, markets)
@@ -315,6 +328,7 @@ class VProbeEvent(EventABC):
         # optional: change a parameter of the fundamental process in the before-step hook of market 0 at a given time
         # ({"at": t, "market": name, "drift": x, "now": bool}); "now": False uses the method's default time (0)
         self.fundamental_change = settings.get("fundamentalChange")
+        self.reshare = settings.get("reshare")
         self.same_hook_twice = settings.get("sameHookTwice", False)
 
     def hook_registration(self):
@@ -376,7 +390,13 @@ class VProbeEvent(EventABC):
         kw = {}
         if tr.options.get("fundamentals"):
             kw["fund"] = [m.get_fundamental_price() for m in simulator.markets]
+            kw["shares"] = [m.outstanding_shares for m in simulator.markets]
         self._r("market_before", market=market.market_id, **kw)
+        rs = getattr(self, "reshare", None)
+        if rs and market is simulator.markets[0] and market.get_time() == rs["at"]:
+            # a corporate action written as a user event: the (public) share count of a market changes in mid-run
+            simulator.name2market[rs["market"]].outstanding_shares = rs["shares"]
+            tr.count("reshares")
         fc = getattr(self, "fundamental_change", None)
         if fc and market is simulator.markets[0] and market.get_time() == fc["at"]:
             mid = simulator.name2market[fc["market"]].market_id
@@ -472,7 +492,7 @@ class VQuotedMarket(Market):
         return super().get_fundamental_price(time) * 1.01
 
 
-ALL_CLASSES = [VScriptedAgent, VScriptedHFT, VTracedHFTMaker, VProbeEvent, VSnapEvent, VQuotedMarket] + TRACED
+ALL_CLASSES = [VScriptedAgent, VScriptedHFT, VScriptedHFTLate, VScriptedAgentSub, VTracedHFTMaker, VProbeEvent, VSnapEvent, VQuotedMarket] + TRACED
 
 
 # ---------------------------------------------------------------------------------------------------------------
